@@ -426,14 +426,22 @@ class AshProtocol(asyncio.Protocol):
 
     def data_received(self, data: bytes) -> None:
         _LOGGER.debug("Received data %s", data.hex())
-        self._buffer.extend(data)
 
-        if len(self._buffer) > MAX_BUFFER_SIZE:
-            _LOGGER.debug(
-                "Truncating buffer to %s bytes, it is growing too fast", MAX_BUFFER_SIZE
-            )
-            self._buffer = self._buffer[-MAX_BUFFER_SIZE:]
+        # Complete frames are parsed before the buffer is capped, so that only an
+        # unterminated frame can ever be truncated. Large reads are fed piecewise to
+        # keep the working buffer small.
+        for offset in range(0, len(data), MAX_BUFFER_SIZE):
+            self._buffer.extend(data[offset : offset + MAX_BUFFER_SIZE])
+            self._process_buffer()
 
+            if len(self._buffer) > MAX_BUFFER_SIZE:
+                _LOGGER.debug(
+                    "Truncating buffer to %s bytes, it is growing too fast",
+                    MAX_BUFFER_SIZE,
+                )
+                self._buffer = self._buffer[-MAX_BUFFER_SIZE:]
+
+    def _process_buffer(self) -> None:
         while self._buffer:
             if self._discarding_until_next_flag:
                 if bytes([Reserved.FLAG]) not in self._buffer:
